@@ -21,7 +21,10 @@ is wider than crypto/tls, which accepts clientAuth only — noted, not a finding
 asks for no particular usage).  A certificate whose usage is outside that set (codeSigning only,
 …) is the "wrong extended key usage" of the property's quantifier.  Whenever the client sent a certificate it must also have proved possession of
 the key by a `CertificateVerify` that is valid under that certificate's key over the handshake
-so far (property text).
+so far (property text).  Every suite the two stacks negotiate signs the handshake with SM2 over an
+SM3 digest (GB/T 38636 6.4.5.9), so "a valid signature under the certificate's key" exists only
+for an elliptic-curve key: a certificate with an RSA (or any other) key can be *sent*, but no
+CertificateVerify proves possession of it.
 
 This file also fixes the *vocabulary* shared by the model, the theorems and the oracle: what a
 client did (`Behaviour`), with the x509 / SM2 verdicts as inputs (they are computed by the
@@ -74,10 +77,37 @@ def ignoresUsage : Policy → Bool
 
 end Policy
 
+/-- the kind of public key a certificate carries -/
+inductive KeyKind where
+  /-- elliptic-curve key on the SM2 curve -/
+  | sm2
+  /-- elliptic-curve key on another curve (P-256, …) -/
+  | ecOther
+  | rsa
+  /-- anything else (Ed25519, …) -/
+  | other
+  deriving DecidableEq, Repr, Inhabited
+
+namespace KeyKind
+
+/-- documented: client certificates may carry elliptic-curve or RSA keys -/
+def usable : KeyKind → Bool
+  | other => false
+  | _ => true
+
+/-- an SM2-with-SM3 handshake signature can be made (and verified) with this kind of key: the
+signature algorithm of GB/T 32918.2 is defined over any prime-field curve, not for RSA -/
+def canSign : KeyKind → Bool
+  | sm2 | ecOther => true
+  | _ => false
+
+end KeyKind
+
 /-- One certificate of the client's list with the verdicts of the real path validation
 (`smx509.Certificate.Verify` against `Config.ClientCAs` at `Config.Time`, the other
-certificates of the list as intermediates) for three acceptable-usage sets, and whether its
-public key is of a kind the stack can use. -/
+certificates of the list as intermediates) for three acceptable-usage sets, and the kind of its
+public key.  Each certificate of the list has its OWN verdicts: the signing certificate (first)
+and, for ECDHE, the encryption certificate (second) are judged separately. -/
 structure Cert where
   /-- chains to the client roots, in date, extended key usage permits *client authentication* -/
   okClient : Bool
@@ -85,13 +115,15 @@ structure Cert where
   okClientOrServer : Bool
   /-- chains to the client roots and is in date; usage ignored -/
   okAnyUsage : Bool
-  /-- ECDSA/SM2 or RSA public key -/
-  keyOK : Bool
+  key : KeyKind
   deriving DecidableEq, Repr, Inhabited
+
+/-- ECDSA/SM2 or RSA public key -/
+def Cert.keyOK (c : Cert) : Bool := c.key.usable
 
 /-- a CertificateVerify message as the ideal-signature abstraction sees it -/
 structure CertVerify where
-  /-- made with the private key of the first certificate of the list -/
+  /-- made with the private key that belongs to the first certificate of the list -/
   byLeafKey : Bool
   /-- over the transcript ClientHello … ClientKeyExchange of *this* handshake -/
   overTranscript : Bool
@@ -130,11 +162,11 @@ encryption certificate (its key enters the key exchange) -/
 def relied (b : Behaviour) : List Cert := if b.ecdhe then b.sent.take 2 else b.sent.take 1
 
 /-- proof of possession: a CertificateVerify valid under the first certificate's key over the
-handshake so far -/
+handshake so far — which takes a key the suite's signature scheme is defined for -/
 def pop (b : Behaviour) : Bool :=
-  match b.cv with
-  | some v => v.valid
-  | none => false
+  match b.cv, b.sent.head? with
+  | some v, some c => v.valid && c.key.canSign
+  | _, _ => false
 
 end Behaviour
 
